@@ -46,10 +46,8 @@ class ConcNamer:
             v = self.model[name]
         elif name in self.defaults:
             v = self.defaults[name]
-        elif default is not None:
-            v = default
         else:
-            v = self._auto(name, kind)
+            v = self._auto(name, kind, default)
         if kind == "int":
             v = int(v)
         elif kind == "real":
@@ -57,8 +55,17 @@ class ConcNamer:
         self.used[name] = v
         return v
 
-    def _auto(self, name, kind):
+    def _auto(self, name, kind, default=None):
         r = self.rng
+        if r is None and default is not None:
+            return default
+        if r is not None and default is not None:
+            # perturb the contract-supplied default over a few decades, keep it sometimes
+            if kind == "int":
+                return default if r.random() < 0.5 else max(0, default + r.choice([-1, 1, 2]))
+            if name in ("DM",):
+                return Fraction(r.choice([-300, -10, -1, 1, 3, 10, 57, 300, 1000]), r.choice([1, 1, 10, 1000]))
+            return Fraction(default) * Fraction(r.choice([1, 1, 1, 2, 3, 7, 10, 100]), r.choice([1, 1, 2, 5, 10]))
         if kind == "int":
             if name == "N":
                 from contracts.utils import is_smooth
@@ -205,6 +212,10 @@ def to_real(v, pb):
         return v._real
     if isinstance(v, SArr):
         return materialize(v)
+    if isinstance(v, Qty) and v.cls is not None:
+        # instance of a repo subclass of Quantity (DispersionMeasure): value in its default unit
+        val = Fraction(v.val) / Fraction(v.unit.scale)
+        return getattr(pb, v.cls.name)(float(val))
     if isinstance(v, Qty):
         un = real_unit(v.unit, v.dim)
         scale = v.unit.scale if v.unit is not None else 1
@@ -580,6 +591,8 @@ def differential(interp, contract, inst, nm, pb, tol=None, real_call=None):
     tol = tol or getattr(contract, "tol", None) or Tol()
     ctx = PathCtx()
     ctx.concrete = True
+    ctx.tol_fn = getattr(contract, "tol_fn", None)
+    ctx.inst_label = inst.label
     V.CONCRETE_MODE = True
     try:
         return _differential(interp, contract, inst, nm, pb, tol, real_call, ctx)
@@ -593,11 +606,18 @@ def _differential(interp, contract, inst, nm, pb, tol, real_call, ctx):
         args, kwargs = inst.build(interp, ctx, nm)
     except (Unsupported, PyExc, Infeasible) as e:
         return {"status": "skip", "why": f"inputs not constructible: {e}"}
-    c = SpecCtx(interp, ctx, contract)
+    skip_fn = getattr(contract, "skip_fn", None)
+    if skip_fn is not None and skip_fn(inst.label, nm.used):
+        return {"status": "skip", "why": "input at a resolution boundary the statement leaves open"}
+    c = SpecCtx(interp, ctx, contract, mode="verify")
     try:
+        if contract.pre is not None:
+            contract.pre(c, *args, **kwargs)
         want = run_outcome(lambda: contract.spec(c, *args, **kwargs))
     except Unsupported as e:
         return {"status": "skip", "why": f"spec not concretely evaluable: {e}"}
+    except Infeasible as e:
+        return {"status": "skip", "why": f"precondition of the contract not met: {e}"}
     try:
         rargs = to_real(tuple(args), pb)
         rkwargs = to_real(dict(kwargs), pb)
@@ -621,6 +641,8 @@ def _differential(interp, contract, inst, nm, pb, tol, real_call, ctx):
         got = Outcome("raise", exc=e)
     mism = []
     info = {"inputs": {k: str(v) for k, v in nm.used.items()}}
+    if want.kind == "raise" and want.exc.kind == "ANY":
+        return {"status": "skip", "why": "input the statement leaves unconstrained", **info}
     if want.kind == "raise":
         wk = want.exc.kind if isinstance(want.exc.kind, tuple) else (want.exc.kind,)
         info["expected"] = f"raises {'|'.join(wk)}"
@@ -639,6 +661,8 @@ def _differential(interp, contract, inst, nm, pb, tol, real_call, ctx):
             mism.append(Mismatch("returns-normally", type(got.exc).__name__, "normal return"))
         else:
             info["observed"] = "normal return"
+            if getattr(ctx, "tol_fn", None):
+                tol = ctx.tol_fn(ctx.inst_label, nm.used) or tol
             try:
                 g = from_real(got.value, pb)
                 compare_concrete(g, want.value, tol, "result", mism, pb)
